@@ -53,7 +53,7 @@ type c07Case struct {
 	Results  []c04Result `json:"results,omitempty"` // recorder: scripted results in call order ("handler-contract" class)
 	CloseAt  int         `json:"close_at"`          // the offender closes its side after this many items (-1: stays)
 	// WriteFault: "" | "block" (the offender stops reading: the server's reply write blocks while the witness works,
-	// then the offender resets) | "fail" (the offender is gone: reply writes fail)
+	// then the offender resets) | "slow" (as block, but the offender then reads on) | "fail" (the offender is gone: reply writes fail)
 	WriteFault string `json:"write_fault,omitempty"`
 }
 
@@ -145,7 +145,7 @@ func evalC07(c c07Case) *Failure {
 	}
 	for i, it := range c.Offender {
 		when := fmt.Sprintf("after offender item %d (%s)", i, it)
-		if offenderAlive && c.WriteFault == "block" && it.Req != nil {
+		if offenderAlive && (c.WriteFault == "block" || c.WriteFault == "slow") && it.Req != nil {
 			// the offender has stopped reading: the server blocks in the reply write; others must still be served
 			when = fmt.Sprintf("while the reply to offender item %d (%s) cannot be written", i, it)
 			m.Conns[0].BlockWrites = true
@@ -164,6 +164,25 @@ func evalC07(c c07Case) *Failure {
 				// no reply was being written (incomplete request after a raw fragment): carry on normally
 				m.Conns[0].UnblockWrites()
 				if f := witness(i, when); f != nil {
+					return f
+				}
+				continue
+			}
+			if c.WriteFault == "slow" {
+				// the offender reads again: it must receive exactly the bytes that were serialized for it
+				m.Conns[0].UnblockWrites()
+				if _, alive, err := m.Step(0, nil); err != nil {
+					if f := checkPanic(when); f != nil {
+						return f
+					}
+					return stallFailure("c07|offender", what+": "+when)
+				} else {
+					offenderAlive = alive
+				}
+				if before, after, ok := m.Conns[0].Mutated(); ok {
+					return failf("c07|reply-bytes-changed-in-flight", "%s: %s: the slow reader's reply was %q when the write began and %q when it was delivered - other clients' traffic reached its reply", what, when, clip(before), clip(after))
+				}
+				if f := checkPanic(when); f != nil {
 					return f
 				}
 				continue
@@ -386,6 +405,9 @@ func genC07Case(rt *rapid.T, avoid func(string) bool) (c07Case, map[string]bool)
 	case 1:
 		c.WriteFault = "fail"
 		labels["reply-write-fails"] = true
+	case 2:
+		c.WriteFault = "slow"
+		labels["peer-reads-slowly"] = true
 	}
 	if c.Handler == "recorder" {
 		k := rapid.IntRange(0, 8).Draw(rt, "nres")
